@@ -892,6 +892,34 @@ pub fn run(session: &Session, prop: &'static RefProp, rule: &str) -> i32 {
         session.run_enum(prop, cases);
     }
     if prop.id == "C06" && !session.stopped() {
+        // the part of a binding construct that does not bind the name (else branch, other arms, the tested
+        // expression) still sees the outer meaning of the name: a captured run-time value, a parameter, a cell
+        let outer = [
+            ("h := () -> string { return \"text\"; }; v := h(); f := () -> any { @ }; f()", "\"text\""),
+            ("f := (v: string) -> any { @ }; f(\"text\")", "\"text\""),
+            ("h := () -> string { return \"text\"; }; v := h(); f := () -> any { g := () -> any { @ }; return g(); }; f()", "\"text\""),
+            ("h := () -> string { return \"text\"; }; f := () -> any { v := h(); @ }; f()", "\"text\""),
+        ];
+        let bodies = [
+            "n := if v: float = 5 { 0 } else { v }; return n;",
+            "if v: float = 5 { return 0; } else { return v; }",
+            "n := match 5 { v: float => 0, => v, }; return n;",
+            "n := match 5 { v: float => 0, w: int => v, }; return n;",
+            "n := if w: int = v { 0 } else { v }; return n;",
+            "n := match v { w: int => 0, u: string => v, }; return n;",
+            "n := if v: int = 5 { 0 } else { 1 }; return v;",
+            "k := mut 0; n := mut \"\"; while w: int = k2(k) { n = v; k += 1; }; return *n;",
+        ];
+        for (ctx, want) in outer {
+            for body in bodies {
+                let text = format!("k2 := (k: mut int) -> int|string {{ if *k < 1 {{ return *k; }} return \"end\"; }}; {}", ctx.replace('@', body));
+                if !session.stopped() {
+                    session.run_one(prop, &json!({"kind": "probe", "sig": "C06:binder-other-part", "text": text, "expected": format!("value {want}")}));
+                }
+            }
+        }
+    }
+    if prop.id == "C06" && !session.stopped() {
         let cases = host_scope_cases();
         session.set_extra("host_scope_cases", json!(cases.len()));
         session.run_enum(prop, cases);
